@@ -12,7 +12,7 @@ os.makedirs(dst, exist_ok=True)
 shutil.copy(os.path.join(src, "patch.diff"), dst)
 shutil.copy(os.path.join(src, "demo.py"), dst)
 meta = json.load(open(os.path.join(src, "meta.json")))
-wt = f"/tmp/wt_{prop}"
+wt = os.environ.get("SEED_WT", f"/tmp/wt_{prop}")
 
 
 def demo(with_change: bool) -> int:
